@@ -14,6 +14,7 @@ import (
 
 var table = map[string]func(*core.Ctx){
 	"C15": props.C15,
+	"C09": props.C09,
 }
 
 func main() {
